@@ -1,5 +1,6 @@
 use crate::core::Property;
 
+pub mod c03;
 pub mod c04;
 pub mod c06;
 pub mod c07;
@@ -14,6 +15,7 @@ pub mod indic;
 
 pub fn registry() -> Vec<Box<dyn Property>> {
     vec![
+        Box::new(c03::C03),
         Box::new(c04::C04),
         Box::new(c06::C06),
         Box::new(c07::C07),
